@@ -478,6 +478,38 @@ func c09Sharing(r *mon.Run) {
 				break
 			}
 		}
+		// a shared signature continued by every File with a body of its own: all Files are built first, then rendered
+		// (what one File chained onto its copy of the shared statement must not show in another File)
+		{
+			extra := rnd.Intn(7)
+			mkSig := func() *jen.Statement {
+				sig := jen.Func().Id("h").Params()
+				for t := 0; t < extra; t++ {
+					sig.Op("*")
+				}
+				return sig.Qual(paths[extra%len(paths)], "T")
+			}
+			sig := mkSig()
+			type pair struct {
+				a, b *jen.File
+				name string
+			}
+			var built []pair
+			for j := 0; j < k; j++ {
+				st := settings[rnd.Intn(len(settings))]
+				fa, fb := st.mk(), st.mk()
+				fa.Add(sig).Block(jen.Id(fmt.Sprintf("own%dq", j)).Call(), jen.Return(jen.Nil()))
+				fb.Add(mkSig()).Block(jen.Id(fmt.Sprintf("own%dq", j)).Call(), jen.Return(jen.Nil()))
+				built = append(built, pair{fa, fb, st.name})
+			}
+			for j, pr := range built {
+				if outHash(pr.a) != outHash(pr.b) {
+					r.Violate("shared-code-renders-by-other-file", c, "a signature statement (%d tokens) shared by %d Files, each of which chained a body of its own onto f.Add(shared): File #%d (%s) renders differently from the same File built with a fresh identical signature", len(*sig), k, j, pr.name)
+					break
+				}
+			}
+			r.Count("shared_signature_sequences", 1)
+		}
 		r.Eval(fmt.Sprintf("share|%d|%v", i, seq), true)
 		r.Count("sharing_sequences", 1)
 	})
